@@ -260,6 +260,8 @@ spifconf_put_var(spif_charptr_t var, spif_charptr_t val)
             if (val) {
                 v->value = val;
                 D_CONF(("Variable already defined.  Replacing its value with \"%s\"\n", v->value));
+                /* The entry keeps its own copy of the name. */
+                FREE(var);
             } else {
                 D_CONF(("Variable already defined.  Deleting it.\n"));
                 if (loc) {
